@@ -75,7 +75,7 @@ def run_c02(pid):
     jobs += corpus.table_block_sizes(t, rnd, limit=1200 if t == "quick" else 9300)
     jobs += corpus.silence_histories(t, rnd)
     jobs += corpus.rail_alternations(t, rnd)
-    jobs += corpus.clipped_sines(t, rnd)
+    jobs += corpus.clipped_sines(t, rnd, light=True)
     corpus.fix_declared(jobs, rnd)
     parts = split_by_cost(jobs, 14)
 
